@@ -674,8 +674,16 @@ impl Sim {
                 }
                 self.sent += 1;
                 let from_role = self.idx(&from).map(|i| format!("{}", self.nodes[i].node.dbs.get_role())).unwrap_or_default();
-                self.emit(json!({"ev":"deliver","link":lid,"from":from,"to":to,"line":line,"from_role":from_role}));
                 let sess = self.links[lid].ysess.clone().unwrap();
+                // what the receiving side knows when it handles the line: its own role, whether the session was
+                // tagged as the primary's (set-primary seen on it), whether it is authenticated
+                let (sess_primary, sess_auth) = match sess.try_lock() {
+                    Ok(s) => (s.client.is_primary(), s.client.auth.load(std::sync::atomic::Ordering::SeqCst)),
+                    Err(_) => (false, false),
+                };
+                let to_role = format!("{}", self.nodes[yi].node.dbs.get_role());
+                self.emit(json!({"ev":"deliver","link":lid,"from":from,"to":to,"line":line,"from_role":from_role,
+                                 "to_role":to_role,"sess_primary":sess_primary,"sess_auth":sess_auth}));
                 let dbs = self.nodes[yi].node.dbs.clone();
                 let dir = self.nodes[yi].node.dir.clone();
                 let tid = self.new_task(TaskKind::Deliver(lid));
@@ -781,7 +789,8 @@ impl Sim {
                     }
                     let fresh = self.nodes.remove(before);
                     self.nodes.insert(ti, fresh);
-                    self.emit(json!({"ev":"restarted","node":k,"wipe":op["wipe"].as_bool() == Some(true),
+                    let dump = self.nodes[ti].node.dump();
+                    self.emit(json!({"ev":"restarted","node":k,"wipe":op["wipe"].as_bool() == Some(true),"dump":dump,
                                      "oplog_valid": self.nodes[ti].node.dbs.is_oplog_valid.load(std::sync::atomic::Ordering::SeqCst)}));
                     // it asks every other live node to let it join (auth; join self)
                     let others: Vec<String> = self.nodes.iter().filter(|n| n.alive && n.name != k).map(|n| n.name.clone()).collect();
